@@ -147,7 +147,10 @@ def command(case):
     pipes, mode = shape(case)
     args = (["-v"] if case.get("v") else []) + MODE_ARG[mode]
     out = None
-    if case.get("o") and (mode == "link" or len(pipes) == 1):
+    if case.get("o") == "dash":
+        # "-o -": standard output for the text-producing modes; an object or executable cannot go there (usage error, nothing started)
+        args += ["-o", "-"] if len(pipes) % 2 else ["-o-"]
+    elif case.get("o") and (mode == "link" or len(pipes) == 1):
         out = "out.bin"
         args += ["-o", out]
     return args + [name for _, name, _ in pipes], out
@@ -265,6 +268,20 @@ def judge(case, obs):
     viol = []      # (signature, text)
     if obs["rc"] is not None and obs["rc"] < 0:
         viol.append(("driver-killed-by-signal", "the driver itself died from signal %d" % -obs["rc"]))
+    if case.get("o") == "dash" and mode in ("c", "link"):
+        # refused before anything runs: whatever the stages would have done, nothing may be left behind
+        if obs["rc"] in (None, 0):
+            viol.append(("object-to-stdout-accepted", "'%s -o -' was not refused (status %s)" % (mode, obs["rc"])))
+        if started:
+            viol.append(("object-to-stdout-started", "stages were started for '-o -' with an object output: %s" % [r["tool"] for r in started]))
+        extra = sorted(set(obs["files"]) - {name for _, name, _ in pipes})
+        if extra:
+            viol.append(("output-left-behind", "files left behind: %s" % extra))
+        if obs["temps_left"]:
+            viol.append(("temporary-left-behind", "temporary objects left behind: %s" % obs["temps_left"]))
+        return dict(sig=viol[0][0], msg="; ".join(t for _, t in viol)) if viol else None
+    if case.get("o") == "dash" and len(pipes) > 1 and mode != "E":
+        return None     # several text outputs to one stream: not specified, only the crash/orphan rules above apply
     if obs["survivors"]:
         viol.append(("stage-survives-driver", "stage processes still alive 300 ms after the driver exited: %s" % obs["survivors"]))
     elif obs["orphans"]:
@@ -303,7 +320,7 @@ def judge(case, obs):
             tag = ("TAG %s\n" % c17.TOOL[stages[-1]]).encode()
             if obs["out"]:
                 cands = [obs["files"].get(obs["out"])]
-            elif mode == "E":
+            elif mode == "E" or case.get("o") == "dash":
                 cands = [obs["stdout"]]
             elif mode == "emit-qbe":
                 # cproc.1 says standard output, the driver writes <name>.qbe (C17's subject): either
@@ -418,7 +435,7 @@ def single_enum(ctx):
             pipes, mode = shape(case0)
             inst = [(i, s) for i, _, stages in pipes for s in stages] + (["ld"] if mode == "link" else [])
             # fault-free vector of the shape
-            for o in (False, True):
+            for o in (False, True, "dash"):
                 yield dict(case0, o=o)
             for k, at in enumerate(inst):
                 for j, kind in enumerate(KINDS):
@@ -434,6 +451,8 @@ def single_enum(ctx):
                         else:
                             c["plan"] = {key: [kind, 0]}
                         yield c
+                        if kind in ("fail-after", "fail-half") and not hold and (k + j) % 3 == 0:
+                            yield dict(c, o="dash")
                         if kind in ("fail-after", "segv") and not hold:
                             # the same fault 150 ms late, while a process the driver did not spawn exits in between
                             yield dict(c, plan={key: [kind, 150]}, inherit=20)
@@ -469,7 +488,7 @@ def multi_strategy(ctx):
                      st.lists(st.sampled_from(["c", "c", "c", "cpp-output", "qbe", "assembler", "assembler-with-cpp"]), min_size=1, max_size=3),
                      st.sampled_from(c17.ORDER), st.lists(stage, min_size=12, max_size=12), stage,
                      st.sampled_from([None] * 10 + c17.ORDER), st.sampled_from([0, 0, 0, 3000, 100000, 200000]),
-                     st.booleans(), st.booleans(), st.sampled_from([False, False, True]), st.sampled_from([None, None, 0, 10, 40, 100]))
+                     st.booleans(), st.sampled_from([False, True, False, True, "dash"]), st.sampled_from([False, False, True]), st.sampled_from([None, None, 0, 10, 40, 100]))
 
 
 def prepare(ctx):
